@@ -130,7 +130,10 @@ fn iterate_with_lines<'a>(
         {
             member.original_startline
         } else {
-            member.original_startline + frame.line - member.startline
+            member
+                .original_startline
+                .saturating_add(frame.line)
+                .saturating_sub(member.startline)
         };
         let file = if let Some(file_name) = member.original_file {
             if file_name == "R8$$SyntheticClass" {
